@@ -739,6 +739,8 @@ def oracle(prop, case, out):
 
 
 PROP_KINDS = {
+    # C02 names "a feedback delivery" among the wake-ups a simulation run must honour
+    "C02": {"fb_lost", "fb_delay", "fb_no_cycle", "no_quiesce"},
     "C08": {"fb_lost", "fb_dup", "fb_spurious", "fb_delay", "fb_reorder", "fb_no_cycle", "fb_same_cycle", "reader_view",
             "passive_not_honoured", "no_quiesce", "coll_lost", "coll_spurious", "coll_mismatch"},
 }
